@@ -26,12 +26,19 @@ def litLines (s : List Char) : List (List Char) :=
 def litText (s : List Char) : List Char :=
   '|' :: chompChars (s.length - (trimEndNl s).length) ++ '\n' :: litBody (litLines s)
 
-/-- the strings of the proved case: no CR / NUL, some content before the trailing line feeds, first
+/-- the strings of the proved case: no control character other than LF / TAB (with CR, NUL, NEL, …
+the emitter falls back to a quoted scalar), some content before the trailing line feeds, first
 non-empty line not starting with a blank (no indentation indicator needed) -/
 structure LitOk (s : List Char) : Prop where
-  noCr : ∀ c ∈ s, c ≠ '\r' ∧ c ≠ Char.ofNat 0
+  noCtl : (s.any fun c => isControl c && c != '\n' && c != '\t') = false
   content : trimEndNl s ≠ []
   noIndicator : firstLineLeadingSpaces (trimEndNl s) = 0
+
+/-- in particular no CR and no NUL -/
+theorem LitOk.noCr {s : List Char} (h : LitOk s) : ∀ c ∈ s, c ≠ '\r' ∧ c ≠ Char.ofNat 0 := by
+  intro c hc
+  have := List.any_eq_false.mp h.noCtl c hc
+  refine ⟨?_, ?_⟩ <;> (rintro rfl; exact absurd this (by decide))
 
 /-! ### emitter -/
 
@@ -60,9 +67,9 @@ theorem foldl_range_eq (ind : List Char) : ∀ (n : Nat) (s : St),
 
 variable {o : Opts} {f : ScalarFns}
 
-theorem emit_litStr (ho : FragOpts o) (s : List Char) (hs : LitOk s) : emit o f (.litStr s) = .ok (litText s) := by
+theorem emit_litStr (ho : FragOpts o) (hi : o.indentStep = 2) (s : List Char) (hs : LitOk s) :
+    emit o f (.litStr s) = .ok (litText s) := by
   have hy := ho.yaml12
-  have hi := ho.indent
   have hni : (firstLineLeadingSpaces (trimEndNl s) > 0) = False := by simp [hs.noIndicator]
   have hce : (trimEndNl s).isEmpty = false := by
     cases h : trimEndNl s with
@@ -70,9 +77,13 @@ theorem emit_litStr (ho : FragOpts o) (s : List Char) (hs : LitOk s) : emit o f 
     | cons _ _ => rfl
   simp only [emit, hi]
   rw [ser]
+  have hnc := hs.noCtl
+  have hcols : ∀ st : St, st.indentShift = 0 → ∀ d, indentCols o st d = 2 * d := fun st h d => by
+    simp only [indentCols, hi, h]; omega
   simp only [serStr, Option.isNone_some, Bool.false_and, Bool.false_eq_true, if_false, writeSpaceIfPending,
     Option.getD_none, writeIndent, hy, St.write, spaces, hni, decide_false, Bool.false_and, literalBlock, hce,
-    List.replicate_zero, List.append_nil, Nat.mul_zero, Nat.mul_one, hi, if_true, Bool.not_false, newline]
+    List.replicate_zero, List.append_nil, Nat.mul_zero, Nat.mul_one, hi, if_true, Bool.not_false, newline, hnc,
+    Bool.or_self, Nat.lt_irrefl, gt_iff_lt, Bool.or_false, hcols]
   generalize htl : s.length - (trimEndNl s).length = t
   have hb : ∀ st : St, (List.foldl (fun s line => writeBodyLine [' ', ' '] line s) st (splitNl (trimEndNl s))).out =
       st.out ++ List.flatMap (fun l => [' ', ' '] ++ l ++ ['\n']) (splitNl (trimEndNl s)) :=
@@ -81,12 +92,12 @@ theorem emit_litStr (ho : FragOpts o) (s : List Char) (hs : LitOk s) : emit o f 
       st.out ++ List.flatMap (fun l => [' ', ' '] ++ l ++ ['\n']) (List.replicate n ([] : List Char)) :=
     fun n st => (foldl_writeBodyLine [' ', ' '] (List.replicate n []) st).1
   match t with
-  | 0 => simp [hb, litText, litLines, htl, chompChars, litBody, List.append_assoc]
-  | 1 => simp [hb, litText, litLines, htl, chompChars, litBody, List.append_assoc]
+  | 0 => simp [hcols, List.replicate_succ, hb, litText, litLines, htl, chompChars, litBody, List.append_assoc]
+  | 1 => simp [hcols, List.replicate_succ, hb, litText, litLines, htl, chompChars, litBody, List.append_assoc]
   | t + 2 =>
     have hw : ∀ (l : List Char) (st : St), (writeBodyLine [' ', ' '] l st).out = st.out ++ [' ', ' '] ++ l ++ ['\n'] :=
       fun l st => by simp [writeBodyLine, newline]
-    simp [hb, hr, hw, foldl_range_eq, litText, litLines, htl, chompChars, litBody, List.append_assoc, List.replicate_succ]
+    simp [hcols, hb, hr, hw, foldl_range_eq, litText, litLines, htl, chompChars, litBody, List.append_assoc, List.replicate_succ]
 
 /-! ### list / text facts -/
 
